@@ -202,3 +202,106 @@ pub fn random_circuit(r: &mut StdRng, n: usize, len: usize, al: &Alphabet) -> Ve
     }
     cur
 }
+
+// ---------------------------------------------------------------------------------------
+// measurement gates with EXPLICIT outcome variables (audit item 1)
+// ---------------------------------------------------------------------------------------
+
+pub fn is_meas(g: &Value) -> bool {
+    g["t"] == "Measure" || g["t"] == "MeasureReset"
+}
+
+pub const VAR_SCHEMES: [&str; 5] = ["distinct", "same", "mixed", "multi", "gap"];
+
+/// A copy of the circuit in which Measure / MeasureReset gates carry explicit variables (None if there is no such gate):
+///   distinct  every measurement its own variable (a random injective choice from 0..)
+///   same      all measurements into ONE variable
+///   mixed     explicit (variables 0..2, repetitions allowed) and fresh (`vars: []`) measurements mixed
+///   multi     parities of one or two variables
+///   gap       one measurement into variable 2 or 3, the others fresh (fresh numbering starts above the largest explicit one)
+pub fn with_measure_vars(cj: &Value, scheme: &str, r: &mut StdRng) -> Option<Value> {
+    let mut c = cj.clone();
+    let gates = c["gates"].as_array_mut().unwrap();
+    let idxs: Vec<usize> = (0..gates.len()).filter(|&i| is_meas(&gates[i])).collect();
+    if idxs.is_empty() {
+        return None;
+    }
+    let mut names: Vec<u32> = (0..idxs.len() as u32).collect();
+    for i in (1..names.len()).rev() {
+        names.swap(i, r.random_range(0..=i));
+    }
+    let same = r.random_range(0..3u32);
+    let gap_at = r.random_range(0..idxs.len());
+    for (k, &i) in idxs.iter().enumerate() {
+        let vars: Vec<u32> = match scheme {
+            "distinct" => vec![names[k]],
+            "same" => vec![same],
+            "mixed" => {
+                if r.random_bool(0.5) {
+                    vec![r.random_range(0..3u32)]
+                } else {
+                    vec![]
+                }
+            }
+            "multi" => {
+                let a = r.random_range(0..3u32);
+                let b = r.random_range(0..3u32);
+                if a == b {
+                    vec![a]
+                } else {
+                    vec![a.min(b), a.max(b)]
+                }
+            }
+            "gap" => {
+                if k == gap_at {
+                    vec![r.random_range(2..4u32)]
+                } else {
+                    vec![]
+                }
+            }
+            _ => panic!("scheme {scheme}"),
+        };
+        gates[i]["vars"] = json!(vars);
+    }
+    Some(c)
+}
+
+/// the circuit with every qubit q renamed to p[q]
+pub fn rename_qubits(cj: &Value, p: &[usize]) -> Value {
+    let mut c = cj.clone();
+    for g in c["gates"].as_array_mut().unwrap() {
+        let qs: Vec<usize> = g["qs"].as_array().unwrap().iter().map(|x| p[x.as_u64().unwrap() as usize]).collect();
+        g["qs"] = json!(qs);
+    }
+    c
+}
+
+pub fn gate_from_json(g: &Value) -> Gate {
+    let ph = &g["ph"];
+    let vars: Vec<u32> = g["vars"].as_array().map(|a| a.iter().map(|x| x.as_u64().unwrap() as u32).collect()).unwrap_or_default();
+    Gate::new_with_phase_and_vars(
+        gtype_from(g["t"].as_str().unwrap()),
+        g["qs"].as_array().unwrap().iter().map(|x| x.as_u64().unwrap() as usize).collect(),
+        Phase::new(Rational64::new(ph[0].as_i64().unwrap(), ph[1].as_i64().unwrap())),
+        Parity::new(vars, false),
+    )
+}
+
+/// put 1..=3 further measurements into a random circuit (the special gates are rare in `random_circuit`): MeasureReset
+/// anywhere on a live qubit, Measure after the last gate that touches its qubit
+pub fn add_measurements(gs: &mut Vec<AG>, n: usize, r: &mut StdRng) {
+    for _ in 0..r.random_range(1..=3usize) {
+        let q = r.random_range(0..n);
+        let gone = |g: &AG| (g.t == "PostSelect" || g.t == "Measure") && g.qs[0] == q;
+        if r.random_bool(0.5) {
+            // MeasureReset: before the qubit is removed (if it is)
+            let end = gs.iter().position(gone).unwrap_or(gs.len());
+            let at = r.random_range(0..=end);
+            gs.insert(at, AG { t: "MeasureReset", qs: vec![q], ph: 0 });
+        } else if !gs.iter().any(gone) {
+            let at = gs.iter().rposition(|g| g.qs.contains(&q)).map_or(0, |i| i + 1);
+            let at = r.random_range(at..=gs.len());
+            gs.insert(at, AG { t: "Measure", qs: vec![q], ph: 0 });
+        }
+    }
+}
